@@ -298,6 +298,13 @@ func conTypes() []*conType {
 				return fmt.Sprint(len(vs))
 			}},
 			opSpec{"Convert", "Convert(>)", func(i any) string { i.(H).Convert(func(a, b int) bool { return a > b }); return "" }},
+			// the caller spreads a slice into Push and keeps using that slice (its own memory) afterwards
+			opSpec{"Push", "Push(buf...)+caller-reuses-buf", func(i any) string {
+				buf := []int{2, 1, 3}
+				i.(H).Push(buf...)
+				buf[0], buf[1], buf[2] = 7, 8, 9
+				return ""
+			}},
 			opSpec{"Merge", "Merge(other)", func(i any) string {
 				o := heap.NewHeap(lessInt)
 				o.Push(5)
@@ -501,6 +508,19 @@ func conTypes() []*conType {
 			)
 		}
 		t.ops = append(t.ops,
+			// the caller keeps the item it was handed and reads it again later (a scheduling point in
+			// between): what Get returned must not change under the caller, whatever the other calls do
+			opSpec{"Get", "Get(x)+read-item-again-later", func(i any) string {
+				it, err := i.(C).Get("x")
+				v1 := it.Val()
+				vrt.Sched("caller holds the item returned by Get")
+				if v2 := it.Val(); v2 != v1 {
+					return v1 + errStr(err) + " [the item read again later says " + v2 + "]"
+				}
+				return v1 + errStr(err)
+			}},
+			// the sweep the cleanup goroutine runs at every interval
+			opSpec{"DeleteExpired", "DeleteExpired()", func(i any) string { return errStr(i.(C).DeleteExpired()) }},
 			opSpec{"Count", "Count()", func(i any) string { return fmt.Sprint(i.(C).Count()) }},
 			opSpec{"Flush", "Flush()", func(i any) string { i.(C).Flush(); return "" }},
 		)
@@ -515,11 +535,19 @@ func conTypes() []*conType {
 				return strings.Join(ks, ",")
 			}},
 			opSpec{"SetDefault", "SetDefault(x,p)", func(i any) string { return errStr(i.(C).SetDefault("x", "p")) }},
-			opSpec{"DeleteExpired", "DeleteExpired()", func(i any) string { return errStr(i.(C).DeleteExpired()) }},
 			opSpec{"MapToCache", "MapToCache({x:p,y:q})", func(i any) string {
 				return errStr(i.(C).MapToCache(map[string]string{"x": "p", "y": "q"}, cache.NoExpiration))
 			}},
 			opSpec{"IsExpired", "IsExpired(x)", func(i any) string { return fmt.Sprint(i.(C).IsExpired("x")) }},
+			// the caller keeps using the map it passed in (its own memory): the cache must have copied it
+			opSpec{"MapToCache", "MapToCache(m)+caller-reuses-m", func(i any) string {
+				m := map[string]string{"x": "p", "z": "q"}
+				e := errStr(i.(C).MapToCache(m, cache.NoExpiration))
+				m["x"] = "r"
+				delete(m, "z")
+				m["w"] = "s"
+				return e
+			}},
 		)
 		for _, c := range [][]string{{}, {"x"}, {"x", "y"}} {
 			c := c
